@@ -166,6 +166,27 @@ pub fn exhaustive(ctx: &Ctx, rep: &mut Report) {
         }
     });
     rep.merge(r);
+    // a REJECTED operation, then valid ones, on one thread: division by zero panics (outside the
+    // property's domain, outcome ignored); what follows must be unaffected
+    {
+        let mut rng2 = crate::util::rng_for(ctx.seed, "c12-after-error");
+        for it in 0..ctx.sz(200, 5000) {
+            let a = rng2.gen_range(0..Q as i16);
+            let _ = monitored(move || vh::felt_div(a, 0));
+            let (x, y) = (rng2.gen_range(0..Q as i16), rng2.gen_range(1..Q as i16));
+            rep.evaluations += 1;
+            match monitored(move || (vh::felt_div(x, y), vh::felt_inv(y), vh::felt_mul(x, y), vh::felt_batch_inv(&[y, x, 0, y]))) {
+                Err(p) => rep.violation(&format!("panic:felt-after-error@{}", short_loc(&p.location)), p.message.clone(), json!({"op": "after-error", "a": a, "x": x, "y": y})),
+                Ok((dv, iv, ml, bt)) => {
+                    let ok = (dv as i64 * y as i64) % Q == x as i64 % Q && (iv as i64 * y as i64) % Q == 1 && ml as i64 == (x as i64 * y as i64) % Q && bt.len() == 4 && (bt[0] as i64 * y as i64) % Q == 1 && bt[2] == 0 && bt[3] == bt[0];
+                    if !ok {
+                        rep.violation("felt:wrong-after-a-rejected-operation", format!("after a division by zero (it {}): div({}, {}) = {}, inv = {}, mul = {}, batch = {:?}", it, x, y, dv, iv, ml, bt), json!({"op": "after-error", "a": a, "x": x, "y": y}));
+                    }
+                }
+            }
+            rep.count("valid_operations_after_a_division_by_zero", 1);
+        }
+    }
     // LONG batches: lengths around 2^8, 2^15, 2^16 and 2^17 (an index or a count kept in a
     // narrow integer wraps there), with and without zeros
     let longs: Vec<usize> = vec![255, 256, 257, 1024, 4096, 32767, 32768, 32769, 65535, 65536, 65537, 70000, 131071, 131072, 131073, 200_000];
